@@ -147,10 +147,10 @@ def run(ctx: Ctx):
     ctx.ob("C16-O3", "R5 PAIRING", b, "`decreasing` is decided on the normalised algorithm name (every accepted spelling of a decreasing variant sorts the items)", okn, f"algo = {ast.unparse(norm[0].value) if norm else '?'}; decreasing = {ast.unparse(dec[0].value) if dec else '?'}: a spelling that is accepted but not recognised as decreasing silently runs the online heuristic and loses the 11/9 OPT + 6/9 guarantee", node=dec[0] if dec else b.node)
     from .sat_common import _need
 
-    _need(ctx, "C16-O3", "R16 PAIRED-EFFECTS", b, "an item that fits no open bin opens a new one, whose index it takes; every item is then recorded in its bin with the bin's remaining capacity lowered", ["if best_bin == -1:\n            best_bin = len(bins)\n            bins.append((bin_capacity, []))", "remaining, items = bins[best_bin]\n        items.append(item_idx)\n        bins[best_bin] = (remaining - size, items)\n        assignments[item_idx] = best_bin", "best_bin = -1"])
-    _need(ctx, "C16-O3", "R16 PAIRED-EFFECTS", b, "zero-size items go to bin 0, which is opened if there is none", ["if size == 0:\n            if not bins:\n                bins.append((bin_capacity, []))\n            bins[0][1].append(item_idx)\n            assignments[item_idx] = 0\n            continue"])
-    _need(ctx, "C16-O3", "R21 search discipline", b, "best fit keeps the fitting bin with the least room, first fit stops at the first fitting bin", ["if use_best_fit:\n            best_remaining = float('inf')\n            for b, (remaining, _) in enumerate(bins):\n                if size <= remaining < best_remaining:\n                    best_remaining = remaining\n                    best_bin = b\n        else:\n            for b, (remaining, _) in enumerate(bins):\n                if size <= remaining:\n                    best_bin = b\n                    break"])
-    _need(ctx, "C16-O3", "R1 STATUS-GUARD", b, "inputs are validated: positive capacity, no item larger than a bin, no negative size, known algorithm name", ["check_positive(bin_capacity, name='bin_capacity')", "if size > bin_capacity:\n            raise ValueError", "if size < 0:\n            raise ValueError", "if algo not in ('first-fit', 'best-fit', 'ff', 'bf'):\n        raise ValueError", "if decreasing:\n        algo = algo.replace('-decreasing', '')", "use_best_fit = algo in ('best-fit', 'bf')"])
+    ctx.step(_need, "C16-O3", "R16 PAIRED-EFFECTS", b, "an item that fits no open bin opens a new one, whose index it takes; every item is then recorded in its bin with the bin's remaining capacity lowered", ["if best_bin == -1:\n            best_bin = len(bins)\n            bins.append((bin_capacity, []))", "remaining, items = bins[best_bin]\n        items.append(item_idx)\n        bins[best_bin] = (remaining - size, items)\n        assignments[item_idx] = best_bin", "best_bin = -1"])
+    ctx.step(_need, "C16-O3", "R16 PAIRED-EFFECTS", b, "zero-size items go to bin 0, which is opened if there is none", ["if size == 0:\n            if not bins:\n                bins.append((bin_capacity, []))\n            bins[0][1].append(item_idx)\n            assignments[item_idx] = 0\n            continue"])
+    ctx.step(_need, "C16-O3", "R21 search discipline", b, "best fit keeps the fitting bin with the least room, first fit stops at the first fitting bin", ["if use_best_fit:\n            best_remaining = float('inf')\n            for b, (remaining, _) in enumerate(bins):\n                if size <= remaining < best_remaining:\n                    best_remaining = remaining\n                    best_bin = b\n        else:\n            for b, (remaining, _) in enumerate(bins):\n                if size <= remaining:\n                    best_bin = b\n                    break"])
+    ctx.step(_need, "C16-O3", "R1 STATUS-GUARD", b, "inputs are validated: positive capacity, no item larger than a bin, no negative size, known algorithm name", ["check_positive(bin_capacity, name='bin_capacity')", "if size > bin_capacity:\n            raise ValueError", "if size < 0:\n            raise ValueError", "if algo not in ('first-fit', 'best-fit', 'ff', 'bf'):\n        raise ValueError", "if decreasing:\n        algo = algo.replace('-decreasing', '')", "use_best_fit = algo in ('best-fit', 'bf')"])
     # a new bin is opened only because no open bin has room: the scan over the open bins is skipped for no item
     scans = [n for n in ast.walk(lp) if isinstance(n, ast.For) and ast.unparse(n.iter) == "enumerate(bins)"]
     ctx.floor("scans over the open bins", len(scans), 2)
